@@ -8,36 +8,6 @@ namespace Nervus.Crash
 
 /-! ### leaf lists -/
 
-theorem mkLeaves_snoc_len (Xi : List (List Nat)) (last : List Nat) (pids : List Nat) :
-    (mkLeaves (Xi ++ [last]) pids).length = Xi.length + 1 := by
-  rw [mkLeaves_length]; simp
-
-theorem mkLeaves_snoc_get : ∀ (Xi : List (List Nat)) (last : List Nat) (pids : List Nat) (d : LeafImg),
-    ∃ p, (mkLeaves (Xi ++ [last]) pids).getD Xi.length d = ⟨last.map some, false, p⟩
-  | [], last, pids, d => ⟨pids.headD 0, by simp [mkLeaves]⟩
-  | x :: Xi, last, pids, d => by
-    obtain ⟨p, hp⟩ := mkLeaves_snoc_get Xi last pids.tail d
-    exact ⟨p, by simpa [mkLeaves] using hp⟩
-
-theorem setLeaf_snoc : ∀ (Xi : List (List Nat)) (last ys : List Nat) (pids : List Nat) (pid : Nat),
-    ∃ pids', setLeaf (mkLeaves (Xi ++ [last]) pids) Xi.length ⟨ys.map some, false, pid⟩ = mkLeaves (Xi ++ [ys]) pids'
-  | [], last, ys, pids, pid => ⟨[pid], by simp [mkLeaves, setLeaf]⟩
-  | x :: Xi, last, ys, pids, pid => by
-    obtain ⟨pids', h⟩ := setLeaf_snoc Xi last ys pids.tail pid
-    refine ⟨pids.headD 0 :: pids', ?_⟩
-    have e : (Xi ++ [last]).isEmpty = (Xi ++ [ys]).isEmpty := by cases Xi <;> rfl
-    simp [mkLeaves, setLeaf, h, e]
-
-theorem setLeaf_split : ∀ (Xi : List (List Nat)) (last L R : List Nat) (pids : List Nat) (p1 p2 : Nat),
-    ∃ pids', setLeaf (setLeaf (mkLeaves (Xi ++ [last]) pids) Xi.length ⟨L.map some, true, p1⟩) (Xi.length + 1) ⟨R.map some, false, p2⟩ =
-      mkLeaves (Xi ++ [L, R]) pids'
-  | [], last, L, R, pids, p1, p2 => ⟨[p1, p2], by simp [mkLeaves, setLeaf]⟩
-  | x :: Xi, last, L, R, pids, p1, p2 => by
-    obtain ⟨pids', h⟩ := setLeaf_split Xi last L R pids.tail p1 p2
-    refine ⟨pids.headD 0 :: pids', ?_⟩
-    have e : (Xi ++ [last]).isEmpty = (Xi ++ [L, R]).isEmpty := by cases Xi <;> rfl
-    simp [mkLeaves, setLeaf, h, e]
-
 theorem insNat_ge (q : Nat) : ∀ (xs : List Nat), xs.Pairwise (· ≤ ·) → (∀ x ∈ xs, x ≤ q) → insNat q xs = xs ++ [q]
   | [], _, _ => rfl
   | e :: es, hs, hq => by
@@ -58,27 +28,9 @@ theorem insNat_ge (q : Nat) : ∀ (xs : List Nat), xs.Pairwise (· ≤ ·) → (
       rw [this]
       simp [← List.replicate_succ, List.replicate_succ']
 
-theorem heads_snoc (Xi : List (List Nat)) (ys : List Nat) : heads (Xi ++ [ys]) = heads Xi ++ [ys.headD 0] := by
-  simp [heads]
-
-/-- the head of the last leaf is what the internal root knows about it -/
-theorem heads_tail_snoc (Xi : List (List Nat)) (a b : List Nat) (h : Xi ≠ [] → a.headD 0 = b.headD 0) :
-    heads (Xi ++ [a]).tail = heads (Xi ++ [b]).tail := by
-  cases Xi with
-  | nil => rfl
-  | cons x Xi =>
-    simp only [List.cons_append, List.tail_cons, heads_snoc]
-    rw [h (by simp)]
-
 end Nervus.Crash
 
 namespace Nervus.Crash
-
-theorem treeShape_top {t : TreeImg} {X : List (List Nat)} {top : Bool} (h : TreeShape t X top) : t.inode.isSome = top := by
-  have := h.inode
-  cases top with
-  | true => simp only [if_true] at this; rw [this]; rfl
-  | false => simp only [Bool.false_eq_true, if_false] at this; rw [this.1]; rfl
 
 /-- the scratch tree after an insertion without split -/
 def treeApp (t : TreeImg) (q i : Nat) (es : List Nat) (p : Nat) : TreeImg :=
@@ -126,19 +78,6 @@ theorem sinkOne_tree (cfg : Cfg) (ps : PS) (t : TreeImg) (q : Nat) (Xi : List (L
 end Nervus.Crash
 
 namespace Nervus.Crash
-
-theorem headD_append_ne (a b : List Nat) (h : a ≠ []) : (a ++ b).headD 0 = a.headD 0 := by
-  cases a with
-  | nil => exact absurd rfl h
-  | cons x xs => rfl
-
-theorem headD_take (a : List Nat) (n : Nat) (hn : 1 ≤ n) : (a.take n).headD 0 = a.headD 0 := by
-  cases a with
-  | nil => simp
-  | cons x xs =>
-    cases n with
-    | zero => omega
-    | succ n => rfl
 
 /-- **one insertion at the end of a chain keeps the chain shape** (the key is not below any key
     already there) -/
@@ -350,19 +289,19 @@ theorem sortNat_pairwise : ∀ xs : List Nat, (sortNat xs).Pairwise (· ≤ ·)
       simp only [List.mem_append, List.mem_singleton, List.mem_filter, decide_eq_true_eq] at hb
       rcases hb with rfl | ⟨_, hb⟩ <;> omega
 
-variable {p0 : PImg} {live lo : Nat} {allowed covered : List Nat} {top : Bool}
+variable {p0 : PImg} {live lo : Nat} {allowed covered : List Nat} {lv : LiveP}
 
 /-- **one insertion into a tree that is not the live one** (with or without a leaf split): block
     judgement and the volatile tree -/
 theorem pblk_sinkOneNew (cfg : Cfg) (nd : Nat) (ps : PS) (t : TreeImg) (q : Nat) (Xi : List (List Nat)) (last : List Nat) (pids : List Nat)
     (hsk : SameKey p0.hdr ps.pm) (hnp : min ps.bm ps.pm.nextPage = nd) (hk : t.key ≠ live)
     (hl : t.leaves = mkLeaves (Xi ++ [last]) pids) (hs : last.Pairwise (· ≤ ·)) (hq : ∀ x ∈ last, x ≤ q) :
-    ∃ nd' effs, PBlk p0 live allowed covered top lo nd ps (sinkOneA cfg ps t q).1 effs nd' (sinkOneA cfg ps t q).2.1 ∧
+    ∃ nd' effs, PBlk p0 live allowed covered lv lo nd ps (sinkOneA cfg ps t q).1 effs nd' (sinkOneA cfg ps t q).2.1 ∧
       (∀ e ∈ effs, TreeE e) ∧
       ∀ p : PImg, treeFind p t.key = some t → treeFind (applyEffs effs p) t.key = some (sinkOneA cfg ps t q).2.2 := by
   obtain ⟨pl, hA, hB, hC⟩ := sinkOne_eq cfg ps t q Xi last pids hl hs hq
-  obtain ⟨ba, _, _⟩ := pblk_alloc_eq (p0 := p0) (live := live) (lo := lo) (allowed := allowed) (covered := covered) (top := top) ps hsk hnp
-  have bb := pblk_write (p0 := p0) (live := live) (lo := lo) (allowed := allowed) (covered := covered) (top := top) ba.sk ba.np
+  obtain ⟨ba, _, _⟩ := pblk_alloc_eq (p0 := p0) (live := live) (lo := lo) (allowed := allowed) (covered := covered) (lv := lv) ps hsk hnp
+  have bb := pblk_write (p0 := p0) (live := live) (lo := lo) (allowed := allowed) (covered := covered) (lv := lv) ba.sk ba.np
     (.blob t.key q) (allocA ps).2.2 trivial
   have hblob : ∀ p : PImg, treeFind p t.key = some t →
       treeFind (applyEff (.blob t.key q) p) t.key = some { t with blobs := q :: t.blobs } :=
@@ -375,7 +314,7 @@ theorem pblk_sinkOneNew (cfg : Cfg) (nd : Nat) (ps : PS) (t : TreeImg) (q : Nat)
     fun p t' seps pid h => treeFind_upd p t.key (fun t => { t with inode := some seps, inodePid := pid }) (fun _ => rfl) t' h
   by_cases hc : last.length < cfg.leafCap
   · rw [hA hc]
-    have bl := pblk_write (p0 := p0) (live := live) (lo := lo) (allowed := allowed) (covered := covered) (top := top) ba.sk ba.np
+    have bl := pblk_write (p0 := p0) (live := live) (lo := lo) (allowed := allowed) (covered := covered) (lv := lv) ba.sk ba.np
       (.leaf t.key Xi.length ((last ++ [q]).map some) false pl) pl (Or.inl hk)
     refine ⟨_, _, (ba.append bb).append bl, ?_, ?_⟩
     · intro e he
@@ -385,19 +324,19 @@ theorem pblk_sinkOneNew (cfg : Cfg) (nd : Nat) (ps : PS) (t : TreeImg) (q : Nat)
       have h1 := hblob p hp
       have h2 := hleafE _ _ Xi.length ((last ++ [q]).map some) false pl h1
       simpa [applyEffs, treeApp] using h2
-  · obtain ⟨ba2, _, _⟩ := pblk_alloc_eq (p0 := p0) (live := live) (lo := lo) (allowed := allowed) (covered := covered) (top := top)
+  · obtain ⟨ba2, _, _⟩ := pblk_alloc_eq (p0 := p0) (live := live) (lo := lo) (allowed := allowed) (covered := covered) (lv := lv)
       (allocA ps).2.1 ba.sk ba.np
-    have bL := pblk_write (p0 := p0) (live := live) (lo := lo) (allowed := allowed) (covered := covered) (top := top) ba2.sk ba2.np
+    have bL := pblk_write (p0 := p0) (live := live) (lo := lo) (allowed := allowed) (covered := covered) (lv := lv) ba2.sk ba2.np
       (.leaf t.key Xi.length (((last ++ [q]).take ((last.length + 1) / 2)).map some) true pl) pl (Or.inl hk)
-    have bR := pblk_write (p0 := p0) (live := live) (lo := lo) (allowed := allowed) (covered := covered) (top := top) ba2.sk ba2.np
+    have bR := pblk_write (p0 := p0) (live := live) (lo := lo) (allowed := allowed) (covered := covered) (lv := lv) ba2.sk ba2.np
       (.leaf t.key (Xi.length + 1) (((last ++ [q]).drop ((last.length + 1) / 2)).map some) false (allocA (allocA ps).2.1).2.2)
       (allocA (allocA ps).2.1).2.2 (Or.inl hk)
     cases hin : t.inode with
     | none =>
       rw [hB hc hin]
-      obtain ⟨ba3, _, _⟩ := pblk_alloc_eq (p0 := p0) (live := live) (lo := lo) (allowed := allowed) (covered := covered) (top := top)
+      obtain ⟨ba3, _, _⟩ := pblk_alloc_eq (p0 := p0) (live := live) (lo := lo) (allowed := allowed) (covered := covered) (lv := lv)
         (allocA (allocA ps).2.1).2.1 ba2.sk ba2.np
-      have bI := pblk_write (p0 := p0) (live := live) (lo := lo) (allowed := allowed) (covered := covered) (top := top) ba3.sk ba3.np
+      have bI := pblk_write (p0 := p0) (live := live) (lo := lo) (allowed := allowed) (covered := covered) (lv := lv) ba3.sk ba3.np
         (.inode t.key [((last ++ [q]).drop ((last.length + 1) / 2)).headD 0] (allocA (allocA (allocA ps).2.1).2.1).2.2)
         (allocA (allocA (allocA ps).2.1).2.1).2.2 hk
       have hall := ((((ba.append bb).append ba2).append (bL.append bR)).append ba3).append bI
@@ -413,7 +352,7 @@ theorem pblk_sinkOneNew (cfg : Cfg) (nd : Nat) (ps : PS) (t : TreeImg) (q : Nat)
         simpa [applyEffs, treeSplit, hin] using h4
     | some seps =>
       rw [hC hc seps hin]
-      have bI := pblk_write (p0 := p0) (live := live) (lo := lo) (allowed := allowed) (covered := covered) (top := top) ba2.sk ba2.np
+      have bI := pblk_write (p0 := p0) (live := live) (lo := lo) (allowed := allowed) (covered := covered) (lv := lv) ba2.sk ba2.np
         (.inode t.key (seps ++ [((last ++ [q]).drop ((last.length + 1) / 2)).headD 0]) t.inodePid) t.inodePid hk
       have hall := (((ba.append bb).append ba2).append (bL.append bR)).append bI
       refine ⟨_, _, by simpa using hall, ?_, ?_⟩
@@ -431,7 +370,7 @@ end Nervus.Crash
 
 namespace Nervus.Crash
 
-variable {p0 : PImg} {live lo : Nat} {allowed covered : List Nat} {top : Bool}
+variable {p0 : PImg} {live lo : Nat} {allowed covered : List Nat} {lv : LiveP}
 
 theorem sinkA_cons (cfg : Cfg) (ps : PS) (t : TreeImg) (q : Nat) (qs : List Nat) :
     sinkA cfg ps t (q :: qs) =
@@ -445,14 +384,14 @@ theorem pblk_sinkNew (cfg : Cfg) (hcap : 1 ≤ cfg.leafCap) :
     ∀ (qs : List Nat) (nd : Nat) (ps : PS) (t : TreeImg) (Xi : List (List Nat)) (last : List Nat) (tp : Bool),
       SameKey p0.hdr ps.pm → min ps.bm ps.pm.nextPage = nd → t.key ≠ live → TreeShape t (Xi ++ [last]) tp →
       qs.Pairwise (· ≤ ·) → (∀ x ∈ (Xi ++ [last]).flatten, ∀ q ∈ qs, x ≤ q) →
-      ∃ nd' effs, PBlk p0 live allowed covered top lo nd ps (sinkA cfg ps t qs).1 effs nd' (sinkA cfg ps t qs).2.1 ∧
+      ∃ nd' effs, PBlk p0 live allowed covered lv lo nd ps (sinkA cfg ps t qs).1 effs nd' (sinkA cfg ps t qs).2.1 ∧
         (∀ e ∈ effs, TreeE e) ∧
         (∀ p : PImg, treeFind p t.key = some t → treeFind (applyEffs effs p) t.key = some (sinkA cfg ps t qs).2.2) ∧
         ∃ Xi' last' tp', TreeShape (sinkA cfg ps t qs).2.2 (Xi' ++ [last']) tp' ∧
           (Xi' ++ [last']).flatten = (Xi ++ [last]).flatten ++ qs ∧
           (∀ y, y ∈ (sinkA cfg ps t qs).2.2.blobs ↔ y ∈ qs ∨ y ∈ t.blobs) ∧ (sinkA cfg ps t qs).2.2.key = t.key
   | [], nd, ps, t, Xi, last, tp, hsk, hnp, _, hsh, _, _ => by
-    refine ⟨nd, [], by simpa [sinkA] using PBlk.nil (live := live) (lo := lo) (allowed := allowed) (covered := covered) (top := top) hsk hnp,
+    refine ⟨nd, [], by simpa [sinkA] using PBlk.nil (live := live) (lo := lo) (allowed := allowed) (covered := covered) (lv := lv) hsk hnp,
       by simp, fun p hp => by simpa [sinkA, applyEffs] using hp, Xi, last, tp, by simpa [sinkA] using hsh, by simp, by simp [sinkA], rfl⟩
   | q :: qs, nd, ps, t, Xi, last, tp, hsk, hnp, hk, hsh, hpw, hq => by
     obtain ⟨pids, hl⟩ := hsh.leaves
@@ -462,7 +401,7 @@ theorem pblk_sinkNew (cfg : Cfg) (hcap : 1 ≤ cfg.leafCap) :
       rw [hflat] at hsp; exact (List.pairwise_append.mp hsp).2.1
     have hq1 : ∀ x ∈ (Xi ++ [last]).flatten, x ≤ q := fun x hx => hq x hx q (by simp)
     have hqlast : ∀ x ∈ last, x ≤ q := fun x hx => hq1 x (by rw [hflat]; exact List.mem_append_right _ hx)
-    obtain ⟨nd1, e1, b1, hTE1, hf1⟩ := pblk_sinkOneNew (p0 := p0) (live := live) (lo := lo) (allowed := allowed) (covered := covered) (top := top)
+    obtain ⟨nd1, e1, b1, hTE1, hf1⟩ := pblk_sinkOneNew (p0 := p0) (live := live) (lo := lo) (allowed := allowed) (covered := covered) (lv := lv)
       cfg nd ps t q Xi last pids hsk hnp hk hl hslast hqlast
     obtain ⟨Xi1, last1, tp1, hsh1, hflat1, hbl1, hkey1⟩ := sinkOne_shape cfg hcap ps t q Xi last tp hsh hq1
     have hpw' := List.pairwise_cons.mp hpw
@@ -500,5 +439,120 @@ theorem pblk_sinkNew (cfg : Cfg) (hcap : 1 ≤ cfg.leafCap) :
         · exact Or.inr (Or.inr h)
     · show (sinkA cfg (sinkOneA cfg ps t q).2.1 (sinkOneA cfg ps t q).2.2 qs).2.2.key = t.key
       rw [hkey2, hkey1]
+
+end Nervus.Crash
+
+namespace Nervus.Crash
+
+variable {p0 : PImg} {live lo : Nat} {allowed covered : List Nat} {lv : LiveP}
+
+/-- **sinking ascending keys into the last leaf of the LIVE tree, without split** (the tree may
+    have any number of leaves under an internal root): each leaf write appends to the last leaf
+    and keeps its first key, so every image of the class still holds the covered properties -/
+theorem pblk_sinkLive (cfg : Cfg) :
+    ∀ (qs : List Nat) (nd : Nat) (ps : PS) (t : TreeImg) (last : List Nat),
+      SameKey p0.hdr ps.pm → min ps.bm ps.pm.nextPage = nd → TreeShape t (lv.Xi ++ [last]) lv.top →
+      (lv.Xi ≠ [] → last.headD 0 = lv.hd) → (∀ q ∈ (lv.Xi ++ [last]).flatten, q ∈ allowed) →
+      (∀ q ∈ covered, q ∈ (lv.Xi ++ [last]).flatten) → (∀ q ∈ qs, q ∈ allowed) →
+      last.length + qs.length ≤ cfg.leafCap → qs.Pairwise (· ≤ ·) → (∀ x ∈ (lv.Xi ++ [last]).flatten, ∀ q ∈ qs, x ≤ q) →
+      ∃ effs, PBlk p0 live allowed covered lv lo nd ps (sinkA cfg ps t qs).1 effs (nd + qs.length) (sinkA cfg ps t qs).2.1 ∧
+        (∀ e ∈ effs, TreeE e) ∧
+        (∀ p : PImg, treeFind p t.key = some t → treeFind (applyEffs effs p) t.key = some (sinkA cfg ps t qs).2.2) ∧
+        TreeShape (sinkA cfg ps t qs).2.2 (lv.Xi ++ [last ++ qs]) lv.top ∧
+        (∀ y, y ∈ (sinkA cfg ps t qs).2.2.blobs ↔ y ∈ qs ∨ y ∈ t.blobs) ∧ (sinkA cfg ps t qs).2.2.key = t.key
+  | [], nd, ps, t, last, hsk, hnp, hsh, _, _, _, _, _, _, _ => by
+    refine ⟨[], by simpa [sinkA] using PBlk.nil (live := live) (lo := lo) (allowed := allowed) (covered := covered) (lv := lv) hsk hnp,
+      by simp, fun p hp => by simpa [sinkA, applyEffs] using hp, by simpa [sinkA] using hsh, by simp [sinkA], rfl⟩
+  | q :: qs, nd, ps, t, last, hsk, hnp, hsh, hhd, hal, hcov, hqal, hcap, hpw, hq => by
+    obtain ⟨pids, hl⟩ := hsh.leaves
+    have hsp := (sortedNat_iff _).mp hsh.sorted
+    have hflat : (lv.Xi ++ [last]).flatten = lv.Xi.flatten ++ last := by simp
+    have hslast : last.Pairwise (· ≤ ·) := by
+      rw [hflat] at hsp; exact (List.pairwise_append.mp hsp).2.1
+    have hq1 : ∀ x ∈ (lv.Xi ++ [last]).flatten, x ≤ q := fun x hx => hq x hx q (by simp)
+    have hqlast : ∀ x ∈ last, x ≤ q := fun x hx => hq1 x (by rw [hflat]; exact List.mem_append_right _ hx)
+    have hc : last.length < cfg.leafCap := by simp at hcap; omega
+    have hflat1 : (lv.Xi ++ [last ++ [q]]).flatten = (lv.Xi ++ [last]).flatten ++ [q] := by simp
+    have hsnew : SortedNat (lv.Xi ++ [last ++ [q]]).flatten := by
+      rw [hflat1, sortedNat_iff, List.pairwise_append]
+      exact ⟨hsp, by simp, fun a ha b hb => by simp only [List.mem_singleton] at hb; subst hb; exact hq1 a ha⟩
+    have hlastne : lv.Xi ≠ [] → last ≠ [] := by
+      intro hx
+      apply hsh.tail last
+      cases hX : lv.Xi with
+      | nil => exact absurd hX hx
+      | cons x Xs => simp
+    have hhd1 : lv.Xi ≠ [] → last ++ [q] ≠ [] ∧ (last ++ [q]).headD 0 = last.headD 0 :=
+      fun hx => ⟨by simp, headD_append_ne last [q] (hlastne hx)⟩
+    obtain ⟨pl, hA, _, _⟩ := sinkOne_eq cfg ps t q lv.Xi last pids hl hslast hqlast
+    have hone := hA hc
+    obtain ⟨ba, _, _⟩ := pblk_alloc_eq (p0 := p0) (live := live) (lo := lo) (allowed := allowed) (covered := covered) (lv := lv) ps hsk hnp
+    have bb := pblk_write (p0 := p0) (live := live) (lo := lo) (allowed := allowed) (covered := covered) (lv := lv) ba.sk ba.np
+      (.blob t.key q) (allocA ps).2.2 trivial
+    have hleaf : CEff p0 live allowed covered lv lo (nd + 1) (.leaf t.key lv.Xi.length ((last ++ [q]).map some) false pl) := by
+      refine Or.inr ⟨rfl, rfl, last ++ [q], rfl, hsnew, fun hx => ⟨(hhd1 hx).1, by rw [(hhd1 hx).2, hhd hx]⟩, ?_, ?_⟩
+      · intro y hy
+        rcases List.mem_append.mp hy with hy | hy
+        · exact hal y (by rw [hflat]; exact List.mem_append_right _ hy)
+        · simp only [List.mem_singleton] at hy; subst hy; exact hqal _ (by simp)
+      · intro y hy
+        rw [hflat1]; exact List.mem_append_left _ (hcov y hy)
+    have bl := pblk_write (p0 := p0) (live := live) (lo := lo) (allowed := allowed) (covered := covered) (lv := lv) ba.sk ba.np
+      (.leaf t.key lv.Xi.length ((last ++ [q]).map some) false pl) pl hleaf
+    have hsh1 : TreeShape (treeApp t q lv.Xi.length (last ++ [q]) pl) (lv.Xi ++ [last ++ [q]]) lv.top :=
+      treeShape_setLast hsh pl rfl rfl hsnew hhd1
+    have hpw' := List.pairwise_cons.mp hpw
+    obtain ⟨e2, b2, hTE2, hf2, hsh2, hbl2, hkey2⟩ :=
+      pblk_sinkLive cfg qs (nd + 1) (allocA ps).2.1 (treeApp t q lv.Xi.length (last ++ [q]) pl) (last ++ [q]) ba.sk ba.np hsh1
+        (fun hx => by rw [(hhd1 hx).2, hhd hx])
+        (by
+          intro y hy
+          rw [hflat1] at hy
+          rcases List.mem_append.mp hy with hy | hy
+          · exact hal y hy
+          · simp only [List.mem_singleton] at hy; subst hy; exact hqal _ (by simp))
+        (fun y hy => by rw [hflat1]; exact List.mem_append_left _ (hcov y hy))
+        (fun y hy => hqal y (by simp [hy]))
+        (by simp at hcap ⊢; omega) hpw'.2
+        (by
+          intro x hx q' hq'
+          rw [hflat1] at hx
+          rcases List.mem_append.mp hx with hx | hx
+          · exact hq x hx q' (by simp [hq'])
+          · simp only [List.mem_singleton] at hx; subst hx; exact hpw'.1 q' hq')
+    rw [sinkA_cons, hone]
+    have hall := ((ba.append bb).append bl).append b2
+    have hlen : nd + (q :: qs).length = nd + 1 + qs.length := by simp; omega
+    rw [hlen]
+    refine ⟨_, hall, ?_, ?_, ?_, ?_, ?_⟩
+    · intro e he
+      simp only [List.nil_append, List.cons_append, List.mem_cons] at he
+      rcases he with rfl | rfl | he
+      · trivial
+      · trivial
+      · exact hTE2 e he
+    · intro p hp
+      have h1 : treeFind (applyEff (.blob t.key q) p) t.key = some { t with blobs := q :: t.blobs } :=
+        treeFind_upd p t.key (fun t => { t with blobs := q :: t.blobs }) (fun _ => rfl) t hp
+      have h2 : treeFind (applyEff (.leaf t.key lv.Xi.length ((last ++ [q]).map some) false pl) (applyEff (.blob t.key q) p)) t.key =
+          some (treeApp t q lv.Xi.length (last ++ [q]) pl) :=
+        treeFind_upd _ t.key (fun t => { t with leaves := setLeaf t.leaves lv.Xi.length ⟨(last ++ [q]).map some, false, pl⟩ }) (fun _ => rfl) _ h1
+      have h3 := hf2 _ h2
+      simpa [applyEffs, treeApp] using h3
+    · have : last ++ q :: qs = (last ++ [q]) ++ qs := by simp
+      rw [this]; exact hsh2
+    · intro y
+      rw [hbl2 y]
+      simp only [treeApp, List.mem_cons]
+      constructor
+      · rintro (h | h | h)
+        · exact Or.inl (Or.inr h)
+        · exact Or.inl (Or.inl h)
+        · exact Or.inr h
+      · rintro ((h | h) | h)
+        · exact Or.inr (Or.inl h)
+        · exact Or.inl h
+        · exact Or.inr (Or.inr h)
+    · rw [hkey2]; rfl
 
 end Nervus.Crash
